@@ -10,25 +10,25 @@ Definition route (m_mLevelUseErrorDevice : list (Z * bool)) (g_discardWriter s_N
   then g_discardWriter
   else if (negb (is_nil s_leveled))
   then match map_get s_leveled lvl with
-  | Some ed => let ok := true in
-  if (ok && (0 <? (Z.of_nat (List.length ed))))
-  then ed
+    | Some ed => let ok := true in
+      if (ok && (0 <? (Z.of_nat (List.length ed))))
+      then ed
+      else match lookupZ m_mLevelUseErrorDevice lvl with
+      | Some _ => s_Error
+      | None => s_Normal
+      end
+    | None => let ed := (@nil member) in
+      let ok := false in
+      if (ok && (0 <? (Z.of_nat (List.length ed))))
+      then ed
+      else match lookupZ m_mLevelUseErrorDevice lvl with
+      | Some _ => s_Error
+      | None => s_Normal
+      end
+    end
   else match lookupZ m_mLevelUseErrorDevice lvl with
-  | Some _ => s_Error
-  | None => s_Normal
-  end
-  | None => let ed := (@nil member) in
-  let ok := false in
-  if (ok && (0 <? (Z.of_nat (List.length ed))))
-  then ed
-  else match lookupZ m_mLevelUseErrorDevice lvl with
-  | Some _ => s_Error
-  | None => s_Normal
-  end
-  end
-  else match lookupZ m_mLevelUseErrorDevice lvl with
-  | Some _ => s_Error
-  | None => s_Normal
-  end.
+    | Some _ => s_Error
+    | None => s_Normal
+    end.
 Definition translated_route := true.
 
